@@ -262,3 +262,52 @@ Section LiveFinal.
       destruct (Hs Hd) as [[t Ht]|C]; [exfalso; exact (Ht (Hmaxr t))|right; exact C].
   Qed.
 End LiveFinal.
+
+(* The synthetic null chunks carry the null chunk's ID without being hashed (make.go:
+   IndexChunk{..., ID: c.nullChunk.ID}).  That ID is right: whenever a worker is about to emit
+   one, the bytes of that chunk are max zero bytes. *)
+Section SyntheticNull.
+  Variable H : bytes -> id.
+  Variables (min max : nat) (d : N) (data : bytes).
+  Hypothesis Hmin : W <= min.
+  Hypothesis Hmax : min <= max.
+  Hypothesis Hpos : 0 < max.
+  Variables (nw span : nat).
+
+  Theorem synthetic_null_is_zero s i c n : PInv min max d data nw span s -> i < nw ->
+    w_pc (getw s i) = After c n -> max <= n ->
+    slice data (c_end c) max = repeat 0%N max /\ c_end c + max <= length data.
+  Proof.
+    intros I Hi Epc Hn.
+    pose proof (p_sl _ _ _ _ _ _ s I i Hi) as Hsl. unfold sl in Hsl. rewrite Epc in Hsl.
+    pose proof (p_pcl _ _ _ _ _ _ s I i Hi) as Hpcl. unfold pcl in Hpcl. rewrite Epc in Hpcl.
+    destruct Hpcl as (Hcan & _ & _).
+    destruct Hsl as [Hlt|[Zc _]]; [lia|].
+    destruct (canon_bounds min max d data Hmin Hmax Hpos c Hcan) as (_ & Hsz & _).
+    assert (Hz : all_zero data (c_end c) max).
+    { eapply (all_zero_sub min max data Hmin Hmax Hpos); [exact Zc|unfold c_end, c_start, c_size in *; lia|unfold c_end, c_start, c_size in *; lia]. }
+    exact Hz.
+  Qed.
+End SyntheticNull.
+
+Section SyntheticNullFinal.
+  Variable H : bytes -> id.
+  Variables (min max : nat) (d : N) (data : bytes).
+  Hypothesis Hmin : W <= min.
+  Hypothesis Hmax : min <= max.
+  Hypothesis Hpos : 0 < max.
+  Variable n : nat.
+  Hypothesis Hn : 1 <= n.
+
+  Theorem pchunk_synthetic_null sched i c k :
+    let s := run (pstep H min max d data false) sched (pinit max data n) in
+    i < nworkers s -> w_pc (getw s i) = After c k -> max <= k ->
+    (slice data (c_end c) max = repeat 0%N max /\ c_end c + max <= length data) \/ Collision H.
+  Proof.
+    intros s Hi Epc Hk.
+    destruct (run_inv_or H min max d data Hmin Hmax Hpos n Hn sched (pinit max data n)
+                (or_introl (init_inv H min max d data Hmin Hmax Hpos n Hn))) as [I|C]; [left|right; exact C].
+    fold s in I. rewrite (p_n _ _ _ _ _ _ s I) in Hi.
+    exact (synthetic_null_is_zero H min max d data Hmin Hmax Hpos _ _ s i c k I Hi Epc Hk).
+  Qed.
+End SyntheticNullFinal.
